@@ -2,6 +2,7 @@
 package main
 
 import (
+	"encoding/hex"
 	"fmt"
 	"strings"
 
@@ -13,6 +14,7 @@ import (
 	"verif/engine/enum"
 	"verif/engine/report"
 	"verif/engine/sig"
+	"verif/gen"
 )
 
 // ---- universe ----------------------------------------------------------------------
@@ -547,7 +549,74 @@ func main() {
 				})
 			}},
 	}
-	r.Coverage["rule"] = "equivalence: every input of the deviation<=1 neighbourhoods of the Ethernet/IPv4/IPv6 seeds (header region, and the length-field deviations beyond it to the end of the seed); reference = NewPacket(DSAD) observed through a wrapper builder (which decoder call failed, where SetTruncated was called); expected parser result = leading run of packet layers inside the set (hop-by-hop folded into IPv6) up to the first type outside the set or the first failing layer. Parsed with the full 12-member universe in 4 containers (map, sparse, array, custom slice) x filled by Put / by AddDecodingLayer, every 11-member subset, IgnoreUnsupported on/off, decoded pre-filled with junk; for unmodified seeds every one of the 4096 subsets and the two other first layers. Compared: error class, reported type list, Truncated, and (deep) every field of every reported preallocated object against the packet's layer. stale-state: every ordered pair (A,B), A an unmodified seed or a seed cut to two thirds of its length, B an unmodified seed with the same first layer, decoded into the same objects (map container with IgnorePanic off, array container with IgnorePanic on); B's result must equal B decoded into fresh objects, field by field. distinct_nontrivial = distinct (packet layer sequence, failing index) of the references."
+	// every DecodingLayer type of the library, not only the universe above: for every pair (A, B) of
+	// per-type seeds of one layer type (A also cut to two thirds, and A == B: the same packet twice)
+	// the same object decodes A then B and must then equal a fresh object that decoded B
+	type dlc struct {
+		name string
+		mk   func() gopacket.DecodingLayer
+	}
+	dlByType := map[gopacket.LayerType][]dlc{}
+	for _, g := range gen.LayerTypes {
+		g := g
+		func() {
+			defer func() { recover() }()
+			d, ok := g.New().(gopacket.DecodingLayer)
+			if !ok {
+				return
+			}
+			for _, t := range d.CanDecode().LayerTypes() {
+				dlByType[t] = append(dlByType[t], dlc{g.Name, func() gopacket.DecodingLayer { return g.New().(gopacket.DecodingLayer) }})
+			}
+		}()
+	}
+	byFirst := map[string][]int{}
+	for i, t := range sp.TSeeds {
+		if t.First.LT != 0 && len(dlByType[t.First.LT]) > 0 {
+			byFirst[t.First.Name] = append(byFirst[t.First.Name], i)
+		}
+	}
+	phases = append(phases, enum.Phase{Name: "reuse-pairs-every-decoding-layer", Len: int64(len(sp.TSeeds)), ChunkHint: 4,
+		Describe: func(i int64) any {
+			return map[string]any{"then_decoded": dspace.Case{First: sp.TSeeds[i].First, Data: sp.TSeeds[i].Data, Seed: sp.TSeeds[i].Name}.Describe()}
+		},
+		Run: func(i int64, w *enum.Worker) {
+			b := sp.TSeeds[i]
+			for _, d := range dlByType[b.First.LT] {
+				for _, ai := range byFirst[b.First.Name] {
+					for cut := 0; cut < 2; cut++ {
+						a := sp.TSeeds[ai].Data
+						if cut == 1 {
+							a = a[:len(a)*2/3]
+						}
+						d := d
+						w.Guard("decodefrombytes-reused|"+d.name, func() {
+							fresh, used := d.mk(), d.mk()
+							errF := fresh.DecodeFromBytes(corpus.Exact(b.Data), gopacket.NilDecodeFeedback)
+							used.DecodeFromBytes(corpus.Exact(a), gopacket.NilDecodeFeedback)
+							errU := used.DecodeFromBytes(corpus.Exact(b.Data), gopacket.NilDecodeFeedback)
+							w.Count("reuse_pairs", 1)
+							ex := map[string]any{"layer": d.name, "first_decoded": hex.EncodeToString(a), "then_decoded": hex.EncodeToString(b.Data), "then_decoded_seed": b.Name}
+							if errClass(errF) != errClass(errU) {
+								w.ViolationCase("c05|stale|error-depends-on-previous-packet|"+d.name, fmt.Sprintf("%s: after another packet DecodeFromBytes returns %v, on a fresh object %v", d.name, errU, errF), ex)
+								return
+							}
+							if errF != nil {
+								return
+							}
+							if s1, s2 := observable(used), observable(fresh); s1 != s2 {
+								fld := diffField(s1, s2)
+								if strings.HasPrefix(fld, "\"") || strings.Contains(fld, "map[") {
+									fld = "map-entries" // a map-valued field: not one class per key
+								}
+								w.ViolationCase("c05|stale|layer-keeps-state-of-previous-packet|"+d.name+"|"+fld, fmt.Sprintf("%s decoded into a re-used object differs from a fresh object: %s", d.name, firstDiff(s1, s2)), ex)
+							}
+						})
+					}
+				}
+			}
+		}})
+	r.Coverage["rule"] = "equivalence: every input of the deviation<=1 neighbourhoods of the Ethernet/IPv4/IPv6 seeds (header region, and the length-field deviations beyond it to the end of the seed); reference = NewPacket(DSAD) observed through a wrapper builder (which decoder call failed, where SetTruncated was called); expected parser result = leading run of packet layers inside the set (hop-by-hop folded into IPv6) up to the first type outside the set or the first failing layer. Parsed with the full 12-member universe in 4 containers (map, sparse, array, custom slice) x filled by Put / by AddDecodingLayer, every 11-member subset, IgnoreUnsupported on/off, decoded pre-filled with junk; for unmodified seeds every one of the 4096 subsets and the two other first layers. Compared: error class, reported type list, Truncated, and (deep) every field of every reported preallocated object against the packet's layer. stale-state: every ordered pair (A,B), A an unmodified seed or a seed cut to two thirds of its length, B an unmodified seed with the same first layer, decoded into the same objects (map container with IgnorePanic off, array container with IgnorePanic on); B's result must equal B decoded into fresh objects, field by field. reuse-pairs-every-decoding-layer: for every DecodingLayer type of the library and every ordered pair (A,B) of per-type seeds of one layer type (A whole and cut to two thirds, A == B included), one object decodes A then B directly through DecodeFromBytes and must then equal, error and every field, a fresh object that decoded B. distinct_nontrivial = distinct (packet layer sequence, failing index) of the references."
 	r.Coverage["stale_corpus"] = len(K)
 	r.Assumptions = []string{"field comparison by reflection over exported and unexported fields (nil slice == empty slice, the checksum back-pointer ignored)", "the wrapper PacketBuilder attributes failures and SetTruncated calls to decoder calls by nesting"}
 	enum.Main(r, phases)
